@@ -361,7 +361,20 @@ func TestVerifC05(t *testing.T) {
 				if cp2%8 == 0 && r.Deadline("C05 nested crash points") {
 					goto done
 				}
-				try(c05Case{Crashes: []int{cp, cp2}, Files: pol[0], DB: pol[1], Target: c05Target})
+				res2 := try(c05Case{Crashes: []int{cp, cp2}, Files: pol[0], DB: pol[1], Target: c05Target})
+				// thorough: a third crash inside the start-up (handshake + WAL catch-up) of the second recovery
+				if vr.Thorough() && res2.key == "" && len(res2.journals) >= 3 && cp2 <= 24 {
+					lim3 := res2.journals[2]
+					if lim3 > 30 {
+						lim3 = 30
+					}
+					for cp3 := 1; cp3 < lim3; cp3++ {
+						if cp3%8 == 0 && r.Deadline("C05 third-level crash points") {
+							goto done
+						}
+						try(c05Case{Crashes: []int{cp, cp2, cp3}, Files: pol[0], DB: pol[1], Target: c05Target})
+					}
+				}
 			}
 			if k%37 == 0 {
 				r.Sample(map[string]interface{}{"case": c1, "journal_of_recovery": n1})
@@ -369,7 +382,7 @@ func TestVerifC05(t *testing.T) {
 		}
 	}
 done:
-	r.Bound = fmt.Sprintf("reference journal %d entries; k=1 everywhere, k=2 within the first %d entries of each recovery", n0, nestedWindow)
+	r.Bound = fmt.Sprintf("reference journal %d entries; k=1 everywhere, k=2 within the first %d entries of each recovery; thorough: k=3 within the first 30 entries of the second recovery for second crashes among its first 24 entries", n0, nestedWindow)
 }
 
 func firstNonEmpty(a, b string) string {
